@@ -144,6 +144,7 @@ class RWorld(World):
         super().__init__(spec)
         shutil.rmtree(self.ws, ignore_errors=True)
         self.ws = shared.ws
+        self.xp.jobspath = self.ws / "xp" / "jobs"  # was bound to the temporary directory of the base class
         self.shared = shared
         self.disk = shared.disk
         self.locks = []
